@@ -1,1 +1,71 @@
-fn main() { println!("zb"); }
+//! zb: checks that drive the real zbus code (built with --cfg zbus_verif).
+//! Usage: zb <ID> [--tier quick|thorough] [--replay <path>]
+#![allow(dead_code)]
+
+mod explore;
+mod sched;
+mod world;
+
+mod c30;
+mod c11;
+mod c12;
+mod c13;
+mod c14;
+mod c15;
+mod c16;
+mod c17;
+mod c18;
+mod c19;
+mod c20;
+mod c21;
+mod c22;
+mod c23;
+mod c24;
+mod c25;
+mod c26;
+mod c27;
+mod c28;
+mod c29;
+mod c31;
+mod c32;
+mod c33;
+mod c36;
+mod c37;
+mod c38;
+mod c39;
+
+fn main() {
+    vcommon::quiet_panics();
+    let args = vcommon::parse_args();
+    let code = match args.id.as_str() {
+        "C30" => c30::main(&args),
+        "C11" => c11::main(&args),
+        "C12" => c12::main(&args),
+        "C13" => c13::main(&args),
+        "C14" => c14::main(&args),
+        "C15" => c15::main(&args),
+        "C16" => c16::main(&args),
+        "C17" => c17::main(&args),
+        "C18" => c18::main(&args),
+        "C19" => c19::main(&args),
+        "C20" => c20::main(&args),
+        "C21" => c21::main(&args),
+        "C22" => c22::main(&args),
+        "C23" => c23::main(&args),
+        "C24" => c24::main(&args),
+        "C25" => c25::main(&args),
+        "C26" => c26::main(&args),
+        "C27" => c27::main(&args),
+        "C28" => c28::main(&args),
+        "C29" => c29::main(&args),
+        "C31" => c31::main(&args),
+        "C32" => c32::main(&args),
+        "C33" => c33::main(&args),
+        "C36" => c36::main(&args),
+        "C37" => c37::main(&args),
+        "C38" => c38::main(&args),
+        "C39" => c39::main(&args),
+        other => vcommon::machinery_failure(&format!("zb: unknown property id {other}")),
+    };
+    std::process::exit(code);
+}
